@@ -16,13 +16,19 @@ def run(ctx, res):
     sched_run.run_all(ctx, res, WANT, 'C04')
     # the same clauses on the end-to-end path: real farm messages, the real worker (pl.worker.cluster.execute),
     # the real store and run ids from the real db.next(); REAL overlaps of executions
-    from . import c02_e2e
+    from . import c02_e2e, c05_e2e
     c02_e2e.run_monitors(ctx, res, WANT)
+    # ... and with runs that fail, report invalid data or kill the worker's run() (sys.exit, KeyboardInterrupt)
+    c05_e2e.run(ctx, res, want=tuple(WANT))
 
 
 def replay(rep, res):
     if ':e2e-' in str(rep.get('sig', '')):
-        from . import c02_e2e
-        c02_e2e.replay_monitors(rep, res, WANT)
+        from . import c02_e2e, c05_e2e
+        inp = rep.get('input', rep)
+        if 'failures' in inp.get('scenario', {}) or inp.get('kind') == 'e2e-fail':
+            c05_e2e.replay(rep, res, want=tuple(WANT))
+        else:
+            c02_e2e.replay_monitors(rep, res, WANT)
     else:
         sched_run.replay_case(rep, res, WANT)
